@@ -1,5 +1,6 @@
 import Setec.Proofs.Store
 import Setec.Proofs.Fs
+import Setec.Proofs.CacheDoc
 import Setec.Generated.Facts
 /-!
 # C13 - the local cache persists the active set faithfully and tolerates loss or corruption
@@ -34,6 +35,20 @@ theorem restart_serves_same (s : St) (n : String) (c : CEntry) (now : Int) (h : 
     ∃ c', (loadCache (.doc (docOf s.m)))[n]? = some (some c') ∧ c'.sv = c.sv ∧ c'.lastAccess = c.lastAccess := by
   refine ⟨{ c with declared := false }, ?_, rfl, rfl⟩
   rw [cache_roundtrip, h]; simp
+
+/-- ...and the same through the bytes of the file: the document as `flushCacheLocked` renders it
+(`CacheDoc.renderDoc`, tied byte for byte to the code by the store trace family) reads back as
+exactly that document - for all names, byte strings, versions and access times - so the store
+restarted from the written bytes holds the same secrets. -/
+theorem cache_bytes_roundtrip (m : AMap) :
+    (CacheDoc.readDoc (CacheDoc.renderDoc (docOf m))).map (fun d => loadCache (.doc d)) =
+      some (loadCache (.doc (docOf m))) := by
+  rw [CacheDoc.readDoc_render]; rfl
+
+/-- non-vacuity: a name made of JSON syntax and a binary value survive the file -/
+example :
+    let d : Doc := (∅ : Doc).insert "\"},\"x\":{" ({ value := [0, 255, 10], version := 3 }, -1)
+    CacheDoc.readDoc (CacheDoc.renderDoc d) = some d := by intro d; exact CacheDoc.readDoc_render d
 
 /-- The cache is rewritten whenever new values are installed: after a lookup... -/
 theorem flush_after_lookup (s : St) (n : String) (sv : SV) (now : Int) (h : s.hasCache = true) :
